@@ -83,13 +83,38 @@ def upper_bound(e, guards=(), depth=0):
     return None
 
 
-def _le_one(rt, guards):
-    """Does a guard on this path say `rt <= 1` ?"""
-    rt = rt.replace(" ", "")
+def _prod_key(e):
+    """a product as an ordered multiset of factor texts (a * b == b * a)"""
+    from .astutil import product_factors
+
+    try:
+        sg, fac = product_factors(e)
+    except Exception:
+        return None
+    return (sg, tuple(sorted(norm_text(f).replace(" ", "") for f in fac)))
+
+
+def _le_one(node, guards):
+    """Does a guard on this path say `node <= 1` ?  (products compared up to commutativity,
+    the bound as a number: 1, 1.0)"""
+    key = _prod_key(node) if isinstance(node, ast.AST) else None
+    rt = (norm_text(node) if isinstance(node, ast.AST) else str(node)).replace(" ", "")
     for g in guards:
         gg = g.replace(" ", "")
         for one in ("1.0", "1"):
             if gg in ("%s<=%s" % (rt, one), "%s>=%s" % (one, rt)):
+                return True
+        if key is None:
+            continue
+        try:
+            c = ast.parse(g, mode="eval").body
+        except SyntaxError:
+            continue
+        if isinstance(c, ast.Compare) and len(c.ops) == 1:
+            l, r, op = c.left, c.comparators[0], c.ops[0]
+            if isinstance(op, (ast.LtE, ast.Lt)) and const_number(r) == 1 and _prod_key(l) == key:
+                return True
+            if isinstance(op, (ast.GtE, ast.Gt)) and const_number(l) == 1 and _prod_key(r) == key:
                 return True
     return False
 
@@ -142,7 +167,7 @@ def _sign_of(e, guards, _memo):
                 if len(neg) == 1 and pos_const == 1:
                     rt = norm_text(neg[0]) if size_upto(neg[0], 60) <= 60 else "?"
                     # 1 - m * K  with the guard  m * K > 1 -> raise
-                    if _le_one(rt, guards):
+                    if size_upto(neg[0], 60) <= 60 and _le_one(neg[0], guards):
                         return NONNEG
                     # 1 - m for documented fractions 0 < m < 1
                     if rt in ("min_bin_height", "min_bin_width", "min_derivative", "self.momentum", "self.eps", "eps"):
